@@ -120,6 +120,8 @@ def judge(case, runs):
                     kind = "%s/library-leak" % k if nm in libonly else "%s/not-declared-in-main" % k
                 elif g[name] == 0:
                     kind = "%s/missing" % k
+                    if k == "types" and list(name) in case["shared"]:
+                        kind = "types/missing/also-declared-in-library/%s" % name[0]
                 elif k == "globals" and nm in case["multiglobal"]:
                     kind = "globals/listed-once-per-declaring-file"
                 else:
@@ -133,7 +135,8 @@ def judge(case, runs):
 def sample(cases, n, rnd):
     groups = {}
     for c in cases:
-        key = (c["split"], bool(c["multiglobal"]), bool(c["libonly"]), len(c["types"]) >= 3, len(c["globals"]) >= 2)
+        key = (c["split"], bool(c["multiglobal"]), bool(c["libonly"]), len(c["types"]) >= 3, len(c["globals"]) >= 2,
+               bool(c["shared"]))
         groups.setdefault(key, []).append(c)
     order = sorted(groups)
     for g in order:
@@ -148,6 +151,28 @@ def sample(cases, n, rnd):
     return chosen
 
 
+def shared_cases(cases, rnd, per_kind):
+    """(strengthened after seeded review) Workspaces in which a class / enum / alias is declared in the library
+    root AND in the main workspace, i.e. where the spec's `lost_if_first_loc` (what an exporter that looks at the
+    first recorded location only would lose under the loader's lib-first order) is not empty: `per_kind` per kind,
+    plus one in which all three kinds are shared at once."""
+    chosen = []
+    for kind in ("class", "enum", "alias"):
+        pool = [c for c in cases if any(t[0] == kind for t in c["lost_if_first_loc"]["lib-first"])]
+        if not pool:
+            raise vlib.ToolError("DocExport alphabet has no %s declared in both the library root and the main workspace" % kind)
+        # the smallest witnesses first (only this type shared), then arbitrary ones
+        pool.sort(key=lambda c: (len(c["shared"]), json.dumps(c, sort_keys=True)))
+        lone = [c for c in pool if len(c["shared"]) == 1]
+        chosen.append(lone[rnd.randrange(len(lone))] if lone else pool[0])
+        for _ in range(per_kind - 1):
+            chosen.append(pool[rnd.randrange(len(pool))])
+    full = [c for c in cases if {t[0] for t in c["shared"]} >= {"class", "enum", "alias"}]
+    if full:
+        chosen.append(full[rnd.randrange(len(full))])
+    return chosen
+
+
 def run(ctx):
     # ---- 1. order model ---------------------------------------------------------------------------------
     res = vlib.tlc("DocExport", "DocExport_sorted", workers=2, timeout=600)
@@ -158,6 +183,11 @@ def run(ctx):
     if uns.violated != "Reproducible":
         raise vlib.ToolError("vacuity guard: the unsorted exporter model should violate Reproducible, got %r" % uns.violated)
     ctx.note("model_unsorted_exporter", "Reproducible violated (as it must be)")
+    fl = vlib.tlc("DocExport", "DocExport_firstloc", workers=2, timeout=600)
+    if fl.violated != "FirstLocIsReference":
+        raise vlib.ToolError("vacuity guard: the alphabet should separate 'some location is main' from 'first location is "
+                             "main' (types shared with the library root), got %r" % fl.violated)
+    ctx.note("model_first_location_exporter", "FirstLocIsReference violated (as it must be)")
     # ---- 2. workspaces ------------------------------------------------------------------------------------
     res = vlib.tlc("DocExport", ctx.pick("DocExport_q", "DocExport_t"), workers=ctx.pick(4, 8), timeout=ctx.pick(600, 1800))
     ctx.add_tlc(res)
@@ -170,6 +200,14 @@ def run(ctx):
     ctx.note("workspaces_enumerated", len(cases))
     rnd = random.Random(ctx.seed)
     chosen = sample(cases, ctx.pick(12, 80), rnd)
+    have = {json.dumps(c["ws"], sort_keys=True) for c in chosen}
+    extra = [c for c in shared_cases(cases, rnd, ctx.pick(1, 6))]
+    for c in extra:
+        k = json.dumps(c["ws"], sort_keys=True)
+        if k not in have:
+            have.add(k)
+            chosen.append(c)
+    ctx.note("workspaces_with_type_shared_with_library", sum(1 for c in chosen if c["shared"]))
     runs_per_ws = ctx.pick(4, 8)
     # ---- 3. replay ------------------------------------------------------------------------------------------
     binary = _repobins.build(["emmylua_doc_cli"])["emmylua_doc_cli"]
@@ -205,7 +243,9 @@ def run(ctx):
                         "expected_modules": c["modules"], "md5_of_runs": [hashlib.md5(r.get("out", b"")).hexdigest() for r in runs]})
     ctx.rule("workspaces = every assignment of snippet subsets to a.lua, b.lua, sub/c.lua and the library file, enumerated "
              "by TLC with the expected type/global/module name sets; a seeded sample stratified over (split class, "
-             "multi-file global, library-only names, >= 3 types, >= 2 globals) is exported K times in fresh processes; "
+             "multi-file global, library-only names, >= 3 types, >= 2 globals, type shared with the library root) plus, "
+             "for each kind class/enum/alias, workspaces that declare the type in the library root AND in a main file "
+             "is exported K times in fresh processes; "
              "evaluation = one export run; non-trivial = workspace with >= 3 exported types+globals (>= 6 orders)")
     ctx.assume("a global assigned in several main files, a class split over several files and an alias declared twice are "
                "each ONE entity (property text: 'exactly once')")
